@@ -505,6 +505,31 @@ def check_self_signatures(rep, prog):
         scen = 'primary=%s' % primary
         sc = Scenario(bind={'%s.is_primary' % me: Const(primary)}, inline=noinline, extended=True)
         outs = Interp(prog, sc).run(sf)
+        gen, gargs = sf, {}
+        for _hop in range(2):
+            # `return self._helper(<types>)`: the property hands back the generator another method of the key makes - follow it,
+            # the helper's parameters bound to the argument values of this call
+            if len(outs) == 1 and not outs[0].yields and outs[0].ret is not None:
+                mm = re.match(r'^\*?%s\.(\w+)\(' % re.escape(me), render(outs[0].ret))
+                tgt = prog.cls('pgpy.pgp', 'PGPKey').find_method(mm.group(1)) if mm else None
+                call = next((c for c in outs[0].calls if mm and c[0] == '%s.%s' % (me, mm.group(1))), None)
+                if tgt is None or call is None or tgt.params[0] != me or len(call[1]) > len(tgt.params) - 1:
+                    break
+                gargs = {p_: Sym(t_) for p_, t_ in zip(tgt.params[1:], call[1])}
+                gargs.update({k_: Sym(t_) for k_, t_ in call[2].items() if k_ in tgt.params})
+                gen = tgt
+                sc = Scenario(bind={'%s.is_primary' % me: Const(primary)}, args=gargs, inline=noinline, extended=True)
+                outs = Interp(prog, sc).run(gen)
+        if len(outs) == 1 and len(outs[0].yields) == 1 and render(outs[0].yields[0]).startswith('*%s.' % me):
+            # `yield from self._helper(..)`
+            mm = re.match(r'^\*%s\.(\w+)\(' % re.escape(me), render(outs[0].yields[0]))
+            tgt = prog.cls('pgpy.pgp', 'PGPKey').find_method(mm.group(1)) if mm else None
+            call = next((c for c in outs[0].calls if mm and c[0] == '%s.%s' % (me, mm.group(1))), None)
+            if tgt is not None and call is not None and tgt.params[0] == me and len(call[1]) <= len(tgt.params) - 1:
+                gargs = {p_: Sym(t_) for p_, t_ in zip(tgt.params[1:], call[1])}
+                gen = tgt
+                sc = Scenario(bind={'%s.is_primary' % me: Const(primary)}, args=gargs, inline=noinline, extended=True)
+                outs = Interp(prog, sc).run(gen)
         ys = [render(y) for s in outs for y in s.yields]
         m = re.match(r'^\*?EACH\((\$[\d.]+) in (.+?)(?: if (.+))?;(?:(\$[\d.]+)|ALT\((\$[\d.]+) \| \)|ALT\( \| (\$[\d.]+)\))\)$', ys[0]) \
             if len(outs) == 1 and len(ys) == 1 else None
@@ -535,7 +560,7 @@ def check_self_signatures(rep, prog):
             # element and read the truth table: the element is yielded iff all three relations hold
             el = Sym('SIG', nonnull=True)
             want = [(w[0], frozenset(x.replace(v, 'SIG') for x in w[1])) if w[0] == 'eq' else (w[0], w[1].replace(v, 'SIG')) for w in want]
-            outs = Interp(prog, Scenario(bind={'%s.is_primary' % me: Const(primary)}, unroll={coll: [el]}, inline=noinline, extended=True)).run(sf)
+            outs = Interp(prog, Scenario(bind={'%s.is_primary' % me: Const(primary)}, args=gargs, unroll={coll: [el]}, inline=noinline, extended=True)).run(gen)
             ok, found = True, None
             for assign in keyaction.assignments(outs):
                 hit = [s for s in outs if keyaction.consistent(s, assign)]
@@ -890,7 +915,7 @@ def check_key_form_predicates(rep, prog):
             if o is not None and o[1] == km:
                 return isinstance(node.ops[0], ast.NotIn) != neg
         return None
-    for s in Interp(prog, Scenario(bind={'%s.protected' % me: Const(True)}, inline=noinline)).run(ul):
+    for s in Interp(prog, Scenario(bind={'%s.protected' % me: Const(True)}, inline=noinline, extended=True)).run(ul):
         z = zero_free(render(s.ret))
         if z is None:
             raise AnalysisError('PrivKeyV4.unlocked: unrecognised form %s' % render(s.ret))
